@@ -99,12 +99,13 @@ theorem funcs_req_N (F : Facts) (fg : PGraph) : ∀ n : PNode,
   | .mk k np c subs i => by
     intro h r hr
     cases k with
-    | func d v =>
+    | func d v nm =>
       simp only [funcsOfNode] at h
       simp only [reqNode, List.mem_append]
       exact Or.inr (funcs_req_Bs F fg subs h r hr)
     | internal => simp [funcsOfNode] at h
     | intro => simp [funcsOfNode] at h
+    | introOpt => simp [funcsOfNode] at h
     | inline a b => simp [funcsOfNode] at h
     | op d o v => simp [funcsOfNode] at h
 theorem funcs_req_Bs (F : Facts) (fg : PGraph) : ∀ gs : List PGraph,
@@ -133,12 +134,16 @@ theorem funcs_req_subN (F : Facts) (fg : PGraph) : ∀ n : PNode,
   | .mk k np c subs i => by
     intro h r hr
     cases k with
-    | func d v => simp [subFuncsOfNode] at h
+    | func d v nm => simp [subFuncsOfNode] at h
     | internal =>
       simp only [subFuncsOfNode] at h
       simp only [reqNode, List.mem_append]
       exact Or.inr (funcs_req_Gs F fg subs h r hr)
     | intro =>
+      simp only [subFuncsOfNode] at h
+      simp only [reqNode, List.mem_append]
+      exact Or.inr (funcs_req_Gs F fg subs h r hr)
+    | introOpt =>
       simp only [subFuncsOfNode] at h
       simp only [reqNode, List.mem_append]
       exact Or.inr (funcs_req_Gs F fg subs h r hr)
